@@ -156,39 +156,6 @@ func sccs(nodes []*Func, g map[*Func][]callEdge) [][]*Func {
 	return out
 }
 
-func dbgSCC(p *Prog) {
-	g, nodes := buildCallGraph(p)
-	for _, comp := range sccs(nodes, g) {
-		self := false
-		if len(comp) == 1 {
-			for _, e := range g[comp[0]] {
-				if e.to == comp[0] {
-					self = true
-				}
-			}
-			if !self {
-				continue
-			}
-		}
-		var names []string
-		in := map[*Func]bool{}
-		for _, f := range comp {
-			names = append(names, f.Name)
-			in[f] = true
-		}
-		sort.Strings(names)
-		ne := 0
-		for _, f := range comp {
-			for _, e := range g[f] {
-				if in[e.to] {
-					ne++
-				}
-			}
-		}
-		fmt.Printf("SCC size=%d edges=%d: %s\n", len(comp), ne, strings.Join(names, " "))
-	}
-}
-
 // ---------------------------------------------------------------------------------------
 // structural descent
 
